@@ -16,8 +16,8 @@ CONFIG = {'gen': [],
                  'the repairs fixes/C13-guid-formatx-fields.diff, C13-guid-strict-dbp.diff, C13-uuid-fromstring-hyphens.diff are applied '
                  'to the tree under test',
                  'timestamps: the 60-bit tick field only; conversion to time.Time (GetTime/SetTime) belongs to C15',
-                 "FromRawBytes on fewer than 16 bytes panics (no error result): decoder totality is C07's subject, here only tied to the "
-                 'model'],
+                 'FromRawBytes on fewer than 16 bytes yields the nil GUID (no error result; fixes/C07-guid-fromrawbytes-short.diff; '
+                 "theorem fromRaw_total): decoder totality is C07's subject"],
  'trusted': ['github.com/google/uuid v1.6.0, encoding/binary and fmt as the independent oracle for the Lean specifications'],
  'technique': 'Lean 4 proof (bit extensionality for the nibble/field/endianness layouts, induction for hex printing/parsing and the '
               'pattern reader/writer, omega for the RFC 4122 bit-field arithmetic) about a hand model; model tied to the Go code by '
